@@ -42,7 +42,7 @@ func flagSetBy(callee string) func(fn *ssa.Function, v ssa.Value) bool {
 }
 
 func runC31(p *core.Prog, r *core.Report) {
-	r.Explain = "Decides that in Server.Replicate the single call that stores (Storage.VerifyAndStoreObjectLocally) is dominated on all CFG paths by: signature Verify(object ID, signature)==true with the request's own fields, ForEachContainerNodePublicKey==nil with the server-membership flag true, ForEachContainerNodePublicKeyInLastTwoEpochs==nil with the client-membership flag true, objectFromMessage==nil; that the two flags are assigned only from IsOwnPublicKey / bytes.Equal(node key, request signature key); that no other storage call exists in the handler; and that the storage adapter in cmd/neofs-node maps VerifyAndStoreObjectLocally to putsvc.ValidateAndStoreObjectLocally (full validation, C24). Not covered: the two-epoch iteration inside the FS-chain adapter."
+	r.Explain = "Decides that in Server.Replicate the single call that stores (Storage.VerifyAndStoreObjectLocally) is dominated on all CFG paths by: signature Verify(object ID, signature)==true with the request's own fields, ForEachContainerNodePublicKey==nil with the server-membership flag true, ForEachContainerNodePublicKeyInLastTwoEpochs==nil with the client-membership flag true, objectFromMessage==nil; that the two flags are assigned only from IsOwnPublicKey / bytes.Equal(node key, request signature key); that no other storage call exists in the handler; and that the storage adapter in cmd/neofs-node maps VerifyAndStoreObjectLocally to putsvc.ValidateAndStoreObjectLocally (full validation, C24). (R4) the per-epoch network-map cache that the container-membership answers are computed from serves a slot only when its Epoch() equals the requested one, otherwise only what was just read from the chain without error. Not covered: the two-epoch iteration inside the FS-chain adapter."
 	fn := p.Func(objSrv + ".Replicate")
 	if fn == nil {
 		r.Fatalf("C31: Replicate not found")
@@ -171,5 +171,29 @@ func runC31(p *core.Prog, r *core.Report) {
 	}
 	if !found {
 		r.Fatalf("C31.R2: no VerifyAndStoreObjectLocally adapter found in cmd/neofs-node")
+	}
+	// ---------------- R4 the node sets of an epoch come from that epoch's network map
+	r4 := r.Rule("C31.R4", "the per-epoch network map cache answers a request for epoch N only with a map whose Epoch() == N, or with what was just read from the chain without error: a stale slot (N-10, N-20, ...) is never served as epoch N", 1)
+	if gfn := p.Func("(*cmd/neofs-node.lruNetCache).get"); gfn == nil {
+		r.Fatalf("C31.R4: lruNetCache.get not found")
+	} else {
+		gs := []core.Guard{
+			{Name: "slot-holds-the-requested-epoch", Pure: true, Comps: []core.Comp{{Result: -1, Kind: core.IsTrue}}, Value: func(f *ssa.Function, v ssa.Value) bool {
+				bo, ok := v.(*ssa.BinOp)
+				if !ok || bo.Op.String() != "==" {
+					return false
+				}
+				isEpoch := func(x ssa.Value) bool {
+					c, isC := x.(*ssa.Call)
+					return isC && strings.HasSuffix(core.CalleeName(c), "netmap.NetMap).Epoch")
+				}
+				return isEpoch(bo.X) && core.ParamIndex(f, bo.Y) == 1 || isEpoch(bo.Y) && core.ParamIndex(f, bo.X) == 1
+			}},
+			{Name: "read-from-the-chain-now", Comps: []core.Comp{{Result: -1, Kind: core.ErrNil}}, Match: func(s core.Site) bool {
+				return strings.HasSuffix(s.Name, ".netRdr") && len(s.Call.Common().Args) > 0 && core.ParamIndex(gfn, s.Call.Common().Args[len(s.Call.Common().Args)-1]) == 1
+			}},
+		}
+		core.CheckSuccessFn(p, r4, gfn, core.SuccessRule{ResultIdx: -1, MinReturns: 2, Guards: gs,
+			Derived: []core.Derived{{Name: "map-of-the-requested-epoch", Alts: [][]string{{"slot-holds-the-requested-epoch"}, {"read-from-the-chain-now"}}}}, Need: []string{"map-of-the-requested-epoch"}})
 	}
 }
